@@ -28,11 +28,15 @@ every run): WAL rotation and capture of the level list in one critical section; 
 `After = LatestSeqNum`; a restored instance takes its sequence number from the loaded level list, continues table
 numbering above the loaded tables (D28) and WAL numbering above the loaded WAL; the flush commit truncates the WAL
 at `LatestSeqNum` inside the critical section of the level swap; `endSeqNum` is a maximum (D6); `Rotate` keeps
-the segment markers (D27). -/
+the segment markers (D27); `CheckpointList.Save` collects the document, writes the file and destroys the pending
+WALs in one critical section of the list mutex, so overlapping saves (the asynchronous halves of consecutive
+checkpoints, a retention update from the job) serialise and the model's `saveDoc` / `retain` are atomic steps;
+`RetainOnly` keeps the listed ids and everything newer than them. -/
 theorem code_shape :
     Facts.c08CaptureUnderLock = 1 ∧ Facts.c08SaveWalThenDoc = 1 ∧ Facts.c08AfterIsLatest = 1 ∧
     Facts.c08StartSeqFromLevels = 1 ∧ Facts.c08StartSkipsTableIDs = 1 ∧ Facts.c08StartNextWALID = 1 ∧
-    Facts.c08FlushTruncates = 1 ∧ Facts.c08EndSeqIsMax = 1 ∧ Facts.c08RotateKeepsMarks = 1 := by
+    Facts.c08FlushTruncates = 1 ∧ Facts.c08EndSeqIsMax = 1 ∧ Facts.c08RotateKeepsMarks = 1 ∧
+    Facts.c08SaveUnderListLock = 1 ∧ Facts.c08RetainKeepsNewer = 1 := by
   decide
 
 /-- the memory/WAL invariant holds after every history -/
